@@ -196,6 +196,26 @@ def R2_constants_validated(run):
             t = strip(pv.operand(c["fields"][n], c["block"], c["stmt"]))
             good = t[0] == "call" and t[1].endswith("unwrap_or") and is_param(t[2][0], n) and arg_name(t[2][1]) == n and mentions(t[2][1], lambda s: s[0] == "field" and s[2] == "adaptive_fee_constants")
             ok = ok and good
+    if not cons:
+        # the merge written as overrides: a local copy of the existing constants, and for each name one store `copy.f = v` of the
+        # payload of the same-named Option parameter
+        pv = prov_of(h)
+        loc_stores = [w for w in writes.field_stores(facts) if w["fn"] is h and w["adt"] == "state::oracle::AdaptiveFeeConstants" and w.get("root") == "local" and w["last"] and w["kind"] == "assign"]
+        locs = {h.blocks[w["block"]]["s"][w["stmt"]]["p"]["l"] for w in loc_stores}
+        ok = len(locs) == 1
+        if ok:
+            L = locs.pop()
+            inits = [d for d in pv.defs.get(L, []) if d[2] is None]
+            ok = len(inits) == 1 and mentions(pv._site(inits[0], 0), lambda s: s[0] == "field" and s[2] == "adaptive_fee_constants")
+            for n in names:
+                mine = [w for w in loc_stores if w["field"] == n]
+                good = len(mine) == 1
+                if good:
+                    v = strip(pv._rvalue(mine[0]["rv"], mine[0]["block"], mine[0]["stmt"], 0))
+                    while v[0] in ("payload", "q", "cast", "variant") or (v[0] == "field" and v[2] == "0"):
+                        v = strip(v[1])
+                    good = is_param(v, n)
+                ok = ok and good
     run.check("R2", "merge-by-name", ok, "set_adaptive_fee_constants does not merge each constant as f.unwrap_or(existing.f)", loc=h.loc(), detail="f: f.unwrap_or(existing.f) for all 7")
     cs = calls_to(h, ends("Oracle::initialize_adaptive_fee_constants"))
     ok = len(cs) == 1 and acc_chain(cs[0][2][2]) == "whirlpool.tick_spacing" and cfg.must_pass_call(h, cs[0][0])[0]
@@ -463,6 +483,34 @@ def R4_gates(run):
             ok = mul[0] == "call" and mul[1].endswith("::mul") and \
                 any(mentions(x, lambda s_: s_[0] == "field" and s_[2] == "0" and is_call(s_[1], "increasing_price_order")) for x in mul[2]) and \
                 any(mentions(x, lambda s_: s_[0] == "call" and s_[1].endswith("sqrt_price_from_tick_index") and mentions(s_, lambda z: z[0] == "param" and z[1] == "major_swap_threshold_ticks")) for x in mul[2])
+    if not ok:
+        # the ordering of the two prices written in place (`if pre > post { (post, pre) } else { (pre, post) }`): decided per outcome
+        # of that comparison
+        from rules.common import decided
+        names2 = [n_ for n_ in ms.param_names() if n_ != "major_swap_threshold_ticks" and n_ != "self"]
+        sel = [(at, decided(at, lambda t: is_param(t, names2[0]), ("Gt", "Ge"))) for at in A.atoms(ms)] if len(names2) == 2 else []
+        sel = [(at, dc) for at, dc in sel if dc is not None and is_param(dc[2], names2[1])]
+        if len(sel) == 1:
+            at, dc = sel[0]
+            good = True
+            for holds in (True, False):
+                truth = holds if dc[3] == at.true_targets else (not holds)
+                pa = prov_assuming(ms, [(at, truth)])
+                hi_n, lo_n = (names2[0], names2[1]) if holds else (names2[1], names2[0])
+                rr = [dict(strip(l)[3])["0"] for l in _returns(ms, pa) if strip(l)[0] == "agg" and strip(l)[2] == "Ok"]
+                g1 = len(rr) == 1 and strip(rr[0])[0] == "bin" and strip(rr[0])[1] in ("Ge", "Le")
+                if g1:
+                    r = strip(rr[0])
+                    big, tgt = (r[2], r[3]) if r[1] == "Ge" else (r[3], r[2])
+                    shr = [s_ for s_ in subterms(tgt) if s_[0] == "call" and s_[1].endswith("shift_right")]
+                    g1 = is_param(strip(big), hi_n) and len(shr) == 1 and (const_val(shr[0][2][1]) == 64 or (strip(shr[0][2][1])[0] == "cast" and const_val(strip(shr[0][2][1])[1]) == 64))
+                    if g1:
+                        mul = strip(shr[0][2][0])
+                        g1 = mul[0] == "call" and mul[1].endswith("::mul") and any(mentions(x, lambda s_: is_param(s_, lo_n)) for x in mul[2]) and \
+                            not any(mentions(x, lambda s_: is_param(s_, hi_n)) for x in mul[2]) and \
+                            any(mentions(x, lambda s_: s_[0] == "call" and s_[1].endswith("sqrt_price_from_tick_index") and mentions(s_, lambda z: z[0] == "param" and z[1] == "major_swap_threshold_ticks")) for x in mul[2])
+                good = good and g1
+            ok = good
     run.check("R4", "is_major_swap", ok, "is_major_swap is not `larger >= (smaller * price(threshold ticks)) >> 64` (a move of exactly the threshold counts)", loc=ms.loc(),
               detail="larger >= (smaller * sqrt_price_from_tick_index(threshold)) >> 64")
     cs = calls_to(fn, ends("AdaptiveFeeVariables::is_major_swap"))
